@@ -79,6 +79,15 @@ Theorem C02_fragment_statements_roundtrip : forall conv es ptss,
     = POk (mkPres (map (fun e => Some (to_node e)) es) [] false true).
 Proof. exact fragment_statements_roundtrip. Qed.
 
+(* ... and with the fuel the front end really passes (default_fuel, which front_parse uses): no
+   existential left - termination (C08) and the absence of panics close the other two outcomes *)
+Theorem C02_fragment_statements_roundtrip_front_end_fuel : forall conv es ptss,
+  Forall2 (stmt_ok conv) es ptss ->
+  (forall pts, In pts (tl ptss) -> match pts with t :: _ => starts_fresh t | [] => True end) ->
+  parse_program conv (default_fuel (List.concat ptss)) token_EOF (List.concat ptss)
+  = POk (mkPres (map (fun e => Some (to_node e)) es) [] false true).
+Proof. exact fragment_statements_roundtrip_default_fuel. Qed.
+
 (* the same inside any context: parseExpression at level p, on the tokens printed for e in a context
    of precedence c, behaves as the expression loop entered with left = e after the last of them *)
 Theorem C02_fragment_expression_in_context : forall conv e, wf_ex conv e = true -> ToksOk conv e.
@@ -129,6 +138,7 @@ Proof. vm_compute. reflexivity. Qed.
 
 Print Assumptions C02_fragment_roundtrip.
 Print Assumptions C02_fragment_statements_roundtrip.
+Print Assumptions C02_fragment_statements_roundtrip_front_end_fuel.
 Print Assumptions C02_fragment_expression_in_context.
 Print Assumptions C02_parse_fuel_independent.
 Print Assumptions C02_refuted.
